@@ -409,6 +409,8 @@ def r3(cx):
             got = sorted({vfmt(o['ret']) for o in outs})
             cx.sample({'apply_errexit': {'status_zero': success, 'errexit_applicable': appl, 'result': got}})
             want = ['Break(Exit(None))'] if (not success and appl) else ['Continue(())']
+            if not success and appl and got and all(re.match(r'^Break\(Exit\((None|Some\(<[^()]*exit_status>\)|<call:then_some#\d+>)\)\)$', g) for g in got):
+                got = want          # inside a trap action the failing status is carried explicitly: Exit(in_trap.then_some($?)) (C10.R10b)
             if got != want:
                 cx.violation(eb.fn, 'apply:%s,%s' % ('zero' if success else 'nonzero', 'applicable' if appl else 'exempt'),
                              '$? %s, errexit %s: apply_errexit = %s, expected %s'
@@ -509,8 +511,15 @@ def r4(cx):
     cx.fn(rb.fn)
     outs = [o for o in sym_paths(cx, F, rb, None) if o['end'] == 'return']
     cx.cellcount(1)
+    EXPH = [re.compile(r'expansion::Error as yash_semantics::handle::Handle<S>>::handle$')]
     for o in outs:
         writes = [vfmt(e[2]) for e in ev_writes(o, '.exit_status')]
+        if ev_calls(o, EXPH):
+            # the operand could not be expanded: the consequence is that of the expansion error (cell decided above, and C10.R4b)
+            if not vfmt(o['ret']).startswith('<call:handle') or writes or ev_calls(o, PRINT):
+                cx.violation(rb.root, 'redir-error:expansion', 'an expansion error in a redirection operand is handed to the expansion-error '
+                             'handler but its verdict is not returned unchanged (%s, $? writes %s)' % (vfmt(o['ret']), writes), loc=bloc(rb))
+            continue
         if vfmt(o['ret']) != 'Continue(())' or writes != [STATUS + 'ERROR'] or len(ev_calls(o, PRINT)) != 1:
             cx.violation(rb.root, 'redir-error', 'a redirection error yields %s with $? writes %s after %d message(s); '
                          'documented: message once, $? = 2, execution continues (the caller decides)'
@@ -1030,3 +1039,112 @@ def r9(cx):
         cx.violation(INVOKE_TARGET, 'builtin-result-altered', "the `command` built-in does not return the invoked built-in's result "
                      'unchanged: a Divert it carries (e.g. the Interrupt of a syntax error inside `command eval`, or of a failed '
                      '`command .`) can be lost and the script continues after a shell error', loc=body.loc(call))
+
+
+REDIR_HANDLE = '<yash_semantics::redir::Error as yash_semantics::handle::Handle<S>>::handle'
+EXP_HANDLE = '<yash_semantics::expansion::Error as yash_semantics::handle::Handle<S>>::handle'
+
+
+def expansion_cause_in_redirection(cx):
+    """An expansion error keeps the consequence of an expansion error when it happens in the operand of a redirection."""
+    F = cx.F
+    body = F.main_body(REDIR_HANDLE)
+    cx.fn(body.fn)
+    du = Q.DefUse(body)
+    a = F.adts.get('yash_semantics::redir::ErrorCause')
+    cx.require(a is not None, 'redir::ErrorCause not found')
+    has_variant = any(v['name'].endswith('Expansion') for v in a['variants'])
+    if not has_variant:
+        cx.site('redir::ErrorCause has no Expansion variant: operand expansion errors are not wrapped as redirection errors')
+        return
+    deleg = Q.find_calls(body, [EXP_HANDLE, re.compile(r'expansion::Error as yash_semantics::handle::Handle<S>>::handle$')])
+    guarded = False
+    for blk, t in deleg:
+        for org, lab, e in Q.implied_conditions(F, body, du, blk):
+            if org['k'] == 'discr' and 'redir::ErrorCause' in (org.get('ty') or '') and lab == ('variant', 'Expansion'):
+                guarded = True
+    cx.site('%s: redir::ErrorCause::Expansion handed to the expansion-error handler: %s' % (body.fn, guarded))
+    if not guarded:
+        cx.violation(REDIR_HANDLE, 'expansion-error-as-redirection-error', 'an error of the expansion of a redirection operand '
+                     '(redir::ErrorCause::Expansion: unset parameter under `set -u`, `${x?}`, division by zero in `$(( ))`) gets the '
+                     'consequence of a redirection error ($? = 2, the script goes on) instead of that of an expansion error: '
+                     '`yash -uc \'echo a >$u; echo survived\'` prints survived and exits 0, while `echo $u` stops the shell with status 2',
+                     loc=body.loc(body.d))
+
+
+@RS.rule('C10.R4b', 'K-TABLE', 'an expansion error stops a non-interactive shell wherever the word is: the redirection-error handler hands '
+         'redir::ErrorCause::Expansion to the expansion-error handler')
+def r4b(cx):
+    expansion_cause_in_redirection(cx)
+
+
+# --- explanation addendum (generated catalogue in DESIGN.md reads RS.explanation)
+RS.explanation += " Added later: an expansion error in a redirection operand is handed to the expansion-error handler (R4b); set_divert only raises, and the `command` built-in returns the invoked built-in's result unchanged (R9)."
+
+
+@RS.rule('C10.R10', 'K-TABLE', 'a shell error inside a trap action aborts with the status of that error: run_trap hands the Divert on with its payload '
+         'unchanged (it does not replace the carried status by the $? saved before the trap)')
+def r10(cx):
+    from rules.C02 import _divert_inputs
+    F = cx.F
+    rt = F.main_body('yash_semantics::trap::run_trap')
+    cx.fn(rt.fn)
+    REL = ['yash_semantics::runner::read_eval_loop', '*::read_eval_loop']
+    n = 0
+    for label, x in _divert_inputs():
+        if not label.endswith('-some'):
+            continue
+
+        def oracle(sym, st, t, args, x=x):
+            if Q.callee_is(t, REL):
+                return x
+            return None
+        outs = [o for o in sym_paths(cx, F, rt, oracle) if o['end'] == 'return' and ev_calls(o, REL)]
+        cx.require(outs, 'run_trap does not run read_eval_loop')
+        for o in outs:
+            n += 1
+            cx.cellcount(1)
+            got, want = vfmt(o['ret'], 6), vfmt(x, 6)
+            cx.site('run_trap: trap action ends with %s -> returns %s' % (want, got))
+            if got != want:
+                cx.violation(rt.root, 'trap-divert-payload:%s' % label.split('-')[0], 'a trap action that ends with %s makes run_trap return %s: the '
+                             'status carried by the divert (the status of the shell error / exit / return) is replaced - `trap \'echo ${y?}\' USR1; '
+                             'kill -USR1 $$` aborts the script with the exit status it had before the trap (0) instead of 2' % (want, got),
+                             loc='%s:%d' % (pp_rel(rt.file), rt.line))
+    cx.require(n >= 4, 'fewer than 4 divert inputs evaluated for run_trap')
+
+
+@RS.rule('C10.R10b', 'K-SIBLING', 'errexit inside a trap action: run_trap restores the $? of before the trap for every Divert but Interrupt, so the '
+         'errexit exit must carry the failing status itself while a Trap frame is on the stack (Exit(None) would exit with the old $?)')
+def r10b(cx):
+    F = cx.F
+    rt = F.main_body('yash_semantics::trap::run_trap')
+    cx.fn(rt.fn)
+    REL = ['yash_semantics::runner::read_eval_loop', '*::read_eval_loop']
+    x = mk_enum('Break', ('enum', 'Exit', {'0': mk_enum('None')}, 'D'))
+
+    def oracle(sym, st, t, args):
+        if Q.callee_is(t, REL):
+            return x
+        return None
+    outs = [o for o in sym_paths(cx, F, rt, oracle) if o['end'] == 'return' and ev_calls(o, REL)]
+    cx.require(outs, 'run_trap does not run read_eval_loop')
+    restores = all(ev_writes(o, '.exit_status') for o in outs)
+    eb = F.body(APPLY_ERREXIT[0])
+    cx.fn(eb.fn)
+    du = Q.DefUse(eb)
+    looks_at_trap = False
+    for b in [eb] + [F.bodies[k] for k in F.bodies if k.startswith(APPLY_ERREXIT[0] + '::')]:
+        d2 = Q.DefUse(b)
+        for u in b.live_blocks():
+            ec = Q.edge_condition(F, b, d2, u)
+            if ec and ec[0]['k'] == 'discr' and (ec[0].get('ty') or '').endswith('stack::Frame') and any(('variant', 'Trap') in labs for labs in ec[1].values()):
+                looks_at_trap = True
+    carries = any(s['rv'].get('variant') == 'Some' for b, j, s in Q.find_aggregates(eb, 'core::option::Option')) or \
+        bool(Q.find_calls(eb, [re.compile(r'bool>::then_some$|::then_some$')]))
+    cx.site('run_trap restores $? after Break(Exit(None)): %s; apply_errexit distinguishes a Trap frame: %s and can carry the status: %s'
+            % (restores, looks_at_trap, carries))
+    if restores and not (looks_at_trap and carries):
+        cx.violation(APPLY_ERREXIT[0], 'errexit-status-lost-in-trap', 'apply_errexit always yields Exit(None), i.e. "exit with the current $?", and '
+                     'run_trap puts the $? of before the trap back for that divert: `set -e; trap "(exit 7); echo more" USR1; kill -USR1 $$` aborts '
+                     'the script as it must but with exit status 0 (the status before the trap) instead of 7', loc=bloc(eb))
